@@ -21,10 +21,12 @@
      with v the POPULATION variance (ddof = 0) put where the pooled formula expects the sample
      variance, and n the WEIGHTED count of the column's respondents in numeric-valued rows
      (never the unweighted or the effective base);
-   * n and v are recomputed from the DISPLAYED rows of `slice.counts` (hidden rows are dropped,
-     inserted rows carry no value), while the mean m is `columns_scale_mean`, which counts every
-     valid row: hiding a numeric-valued row changes v, n, df – hence t, p and the index sets – but
-     not m (`FullIn.display` as found, `FullIn.displayFixed` = every valid row);
+   * n and v count EVERY valid row, like the mean `columns_scale_mean` does (`FullIn.displayFixed`,
+     the code with repair F60 = /repo 4aa15c90).  Before the repair they were recomputed from the
+     DISPLAYED rows of `slice.counts` (`FullIn.display ro co` with hidden rows dropped from `ro`), so
+     hiding a numeric-valued row changed v, n, df – hence t, p and the index sets – but not m
+     (`C13.legacy_hidden_row_counterexample`); the harness accepts the repaired model at the seams and
+     reports the old behaviour as a spec-level finding;
    * the summary test compares the column margin proportions  p_j = unweighted column base /
      WEIGHTED table margin, variance p(1−p)/table margin, df = unweighted bases − 2;
    * no index set masks the selected column itself (it is excluded only because p(a,a) is 1 or NaN);
@@ -240,7 +242,7 @@ def FullIn.display (x : FullIn) (ro co : List Int) : LegIn :=
 /-- every valid row element once, in payload order -/
 def FullIn.allRows (x : FullIn) : List Int := (List.range x.nr).map (fun (i : Nat) => Int.ofNat i)
 
-/-- REPAIRED reading (fix F60): n and the variance count every valid row, like the mean does -/
+/-- THE CODE (with repair F60): n and the variance count every valid row, like the mean does -/
 def FullIn.displayFixed (x : FullIn) (co : List Int) : LegIn := x.display x.allRows co
 
 end CrCube.PairwiseLegacy
